@@ -149,7 +149,7 @@ def t_formula(rng, gid, configured=None, cls='FormulaGrader'):
         cfg.setdefault('sample_from', {})[variables[-1]] = {
             '__sim__': {'cls': 'SimSampler', 'cfg': {'name': stub, 'mode': 'rng', 'lo': 1.0, 'hi': 3.0}}}
         targets.append({'name': stub, 'n': cfg.get('samples', 5), 'where': 'sampler'})
-    pal = {'right': [answer] + rights, 'wrong': list(wrongs),
+    pal = {'right': [answer] + rights, 'wrong': list(wrongs) + ['', '   '],
            'malformed': [s.replace('x', variables[0]) for s in FORMULA_MALFORMED]}
     r = rng.random()
     if r < 0.35:
@@ -245,7 +245,7 @@ def t_formula(rng, gid, configured=None, cls='FormulaGrader'):
                 'linear': pick(rng, [0, 0.1])}}}, 'comparer_params': [answer]}}
             cfg['samples'] = max(cfg.get('samples', 5), 3)
             pal['wrong'] = ['0', '2*(%s)' % answer, '0*%s' % variables[0], '3*(%s)' % answer, '(%s)+3' % answer,
-                            '3*(%s)-1' % answer]
+                            '3*(%s)-1' % answer, '', ' ', '1e200*(%s)' % answer, '[1,2]']
     elif configured:
         cfg['answers'] = answers_of(rng, [answer] + rights, partial=partial)
     return {'bp': {'id': gid, 'cls': cls, 'cfg': cfg}, 'configured': configured, 'kind': 'text',
